@@ -860,6 +860,11 @@ def np_trace(it, a):
 
 @np_fn('einsum')
 def np_einsum(it, expr, *ops, **k):
+    out_arr = k.pop('out', None)
+    if out_arr is not None:
+        res = np_einsum(it, expr, *ops, **k)
+        S.assign_inplace(it, out_arr, res)
+        return out_arr
     ops = [o if is_arr(o) else to_carr(o) for o in ops]
     if not all(isinstance(o, CArr) for o in ops):
         raise Unsupported('einsum on symbolic-shape arrays (use the linear-operator contract)')
@@ -1946,3 +1951,42 @@ def spsig_convolve(it, a, w, mode='full', **k):
 @np_fn('correlate', ns='spsig')
 def spsig_correlate(it, a, w, mode='full', **k):
     return _conv_nd(it, a, w, mode, correlate=True)
+
+
+@np_fn('fill_diagonal')
+def np_fill_diagonal(it, a, val, **k):
+    if not isinstance(a, CArr) or a.ndim != 2:
+        raise Unsupported('fill_diagonal form')
+    for i in range(min(a.shape)):
+        a.data[i, i] = val
+    return None
+
+
+@np_fn('solve', ns='np.linalg')
+def la_solve(it, Am, b):
+    """exact solution of a small dense system with symbolic entries (fraction-free Gauss-Jordan with a symbolic non-zero pivot assumption);
+    only for concrete sizes n <= 4: x = A^-1 b as rational functions; the non-singularity of the leading minors is a precondition (safety obligation)"""
+    if _is_mat(Am):
+        return MA.wrap(MA.unwrap(Am).inv() @ MA.unwrap(b), 'complex' if 'complex' in (Am.fields['kind'], b.fields['kind']) else Am.fields['kind'])
+    Am = Am if is_arr(Am) else to_carr(Am)
+    b = b if is_arr(b) else to_carr(b)
+    if not (isinstance(Am, CArr) and isinstance(b, CArr)) or Am.ndim != 2 or Am.shape[0] != Am.shape[1] or Am.shape[0] > 4:
+        raise Unsupported('np.linalg.solve beyond small concrete systems')
+    n = Am.shape[0]
+    M = [[Am.data[i, j] for j in range(n)] for i in range(n)]
+    B = b.data.reshape(n, -1)
+    R = [[B[i, j] for j in range(B.shape[1])] for i in range(n)]
+    for c in range(n):
+        piv = M[c][c]
+        it.ctx.safety('solve_pivot_nonzero', V.cmp('!=', piv, 0) if not isinstance(piv, Cx) else V.zbool(piv))
+        for r in range(n):
+            if r == c:
+                continue
+            f = V.div(M[r][c], piv)
+            M[r] = [V.sub(M[r][j], V.mul(f, M[c][j])) for j in range(n)]
+            R[r] = [V.sub(R[r][j], V.mul(f, R[c][j])) for j in range(len(R[r]))]
+    X = np.empty(B.shape, dtype=object)
+    for i in range(n):
+        for j in range(B.shape[1]):
+            X[i, j] = V.div(R[i][j], M[i][i])
+    return CArr(X.reshape(b.shape))
